@@ -23,7 +23,7 @@ META = dict(
                  '"never changes the source" compares datasets, examples and alias contents before/after; an added empty alias section is not a change of stored aliases',
                  'real pickle and real JSON files in a scratch directory'],
     bounds=dict(quick='21 database descriptions (1-3 merged parts, 0-2 aliases, alias section in first/later/no part, dict and non-dict extra keys, duplicate dataset/alias names, '
-                      'overlapping ids) x request sequences of length 2 over 9 request kinds, dict- and JSON-backed',
+                      'overlapping ids) x request sequences of length 2 over 12 request kinds (names, aliases, lists / tuples of names and of aliases, a missing name, garbage collection), dict- and JSON-backed',
                 thorough='request sequences of length 3'),
     outside=['descriptions outside the family', 'request sequences longer than the bound'],
 )
@@ -70,7 +70,8 @@ def _untraced():
     return contextlib.nullcontext()
 
 
-REQUESTS = ['dsA', 'dsB', 'al1', 'al2', ['dsA', 'dsB'], ('dsB', 'dsA'), 'missing', 'dsE', 'gc']
+REQUESTS = ['dsA', 'dsB', 'al1', 'al2', ['dsA', 'dsB'], ('dsB', 'dsA'), 'missing', 'dsE', 'gc',
+            ['al1', 'dsB'], ('dsB', 'al1'), ['al1']]       # lists that contain an alias: its examples carry the alias name, its overlap check applies
 
 
 def _merged(parts):
